@@ -196,6 +196,17 @@ pub fn run(ctx: &mut Ctx) {
             sc.main.push_str(&format!("[{{% include '{}' %}}{{% render '{name}' %}}]", sc.partials[k].0));
             ctx.count("scenarios:with-empty-partial");
         }
+        // partial sources are taken verbatim: leading / trailing invisible characters and white space
+        // are part of the partial under every policy
+        if !sc.partials.is_empty() && r.chance(1, 6) {
+            let k = r.below(sc.partials.len());
+            let pre = r.choose(&["\u{feff}", " ", "\n", "\t", "\u{a0}", "\r\n", "\u{200b}"]);
+            let post = r.choose(&["", "\u{feff}", " \n", "\u{a0}"]);
+            sc.partials[k].1 = format!("{pre}{}{post}", sc.partials[k].1);
+            let name = sc.partials[k].0.trim_end_matches(".liquid").to_string();
+            sc.main.push_str(&format!("<{{% include '{}' %}}|{{% render '{name}' %}}>", sc.partials[k].0));
+            ctx.count("scenarios:with-invisible-edges-in-a-partial");
+        }
         let renders = 1 + r.below(3);
         ctx.set_progress(&replay_json(&sc).to_string());
         let uses_partials = sc.main.contains("include") || sc.main.contains("render");
